@@ -334,18 +334,26 @@ func (w *world) run(r *hx.Run, c caseT) {
 			bad("calls/unlisted-store-loaded", "loaded "+g+" which the applicable statement does not list")
 			continue
 		}
-		if gi >= len(wantSeq) || wantSeq[gi] != g {
-			bad("calls/order-or-repetition", fmt.Sprintf("call log %v, want a prefix of %v", gotSeq, wantSeq))
-			break
-		}
+		_ = gi
 	}
-	if want && len(gotSeq) != len(wantSeq) {
-		bad("calls/listed-store-not-loaded", fmt.Sprintf("call log %v, want %v", gotSeq, wantSeq))
+	// The statement fixes WHICH stores may be consulted and that an unloadable listed store must not be ignored; it
+	// does not fix the order, the number of times a listed store is asked, or that stores are asked at all once the
+	// verdict is already a failure. Those are recorded (evidence), not judged.
+	asked := map[string]bool{}
+	for _, g := range gotSeq {
+		asked[g] = true
 	}
-	if !allLoad && firstFail >= 0 && len(gotSeq) <= firstFail && len(L) > 0 {
-		// the failing store was never asked for: its failure was not observed, so it was ignored
-		if len(gotSeq) < firstFail+1 {
-			bad("calls/unloadable-store-never-asked", fmt.Sprintf("call log %v, first unloadable store is %s", gotSeq, wantSeq[firstFail]))
+	if strings.Join(gotSeq, ",") != strings.Join(wantSeq[:min(len(gotSeq), len(wantSeq))], ",") {
+		r.Outcome("recorded:call-order-or-repetition-differs-from-list-order")
+	}
+	if want {
+		// authenticity passed: every listed store of the required type must have been asked, otherwise the verdict
+		// cannot depend on whether it loads
+		for _, wstore := range wantSeq {
+			if !asked[wstore] {
+				bad("calls/listed-store-not-loaded", fmt.Sprintf("call log %v, authenticity passed without asking %s", gotSeq, wstore))
+				break
+			}
 		}
 	}
 	r.Outcome(class + ":" + why)
